@@ -356,6 +356,102 @@ func (f *discFixture) noteReturn(op *jDiscOp, was bool) {
 	}
 }
 
+// ---- identifiers.  Besides the numeric boundaries of prng.id16, the values at which an ENCODING of an identifier
+// changes shape: the UTF-16 surrogate block and U+FFFD (not representable / the replacement character when an
+// identifier is written as a rune), the neighbours of those, the UTF-8 length boundaries, and the bytes that are
+// separators or brackets in a printed list.  Universes are built so that SEVERAL members of one class occur together.
+
+var discClasses = map[string][]uint16{
+	"surrogate":      {0xD800, 0xD801, 0xDBFF, 0xDC00, 0xDFFF},
+	"replacement":    {0xFFFD},
+	"near-surrogate": {0xD7FF, 0xE000, 0xFFFE, 0xFFFF},
+	"utf8-boundary":  {0x7F, 0x80, 0x7FF, 0x800},
+	"separator":      {0x0A, 0x20, 0x2C, 0x5B, 0x5D},
+}
+
+func discClassOf(x uint16) string {
+	switch {
+	case x >= 0xD800 && x <= 0xDFFF:
+		return "surrogate"
+	case x == 0xFFFD:
+		return "replacement"
+	}
+	for _, c := range []string{"near-surrogate", "utf8-boundary", "separator"} {
+		for _, y := range discClasses[c] {
+			if x == y {
+				return c
+			}
+		}
+	}
+	return "other"
+}
+
+// another identifier of the same encoding class as x (surrogates and U+FFFD form one class)
+func discTwinOf(r *prng, x uint16) uint16 {
+	switch discClassOf(x) {
+	case "surrogate", "replacement":
+		if r.chance(1, 3) {
+			return uint16(0xD800 + r.intn(0x800))
+		}
+		pool := append(append([]uint16{}, discClasses["surrogate"]...), 0xFFFD)
+		return pool[r.intn(len(pool))]
+	case "other":
+		if r.chance(1, 2) {
+			return x ^ 1
+		}
+		return x ^ 0x100
+	default:
+		pool := discClasses[discClassOf(x)]
+		return pool[r.intn(len(pool))]
+	}
+}
+
+// discIDs returns n distinct identifiers; in about half of the universes two to four of them come from one
+// encoding class.
+func discIDs(r *prng, n int, small bool) []uint16 {
+	seen := map[uint16]bool{}
+	var res []uint16
+	add := func(x uint16) {
+		if !seen[x] && len(res) < n {
+			seen[x] = true
+			res = append(res, x)
+		}
+	}
+	if !small && r.chance(3, 5) {
+		var pool []uint16
+		switch r.intn(6) {
+		case 0, 1, 2: // the collapsing class, sometimes with its neighbours
+			pool = append(append([]uint16{}, discClasses["surrogate"]...), 0xFFFD, uint16(0xD800+r.intn(0x800)))
+			if r.chance(1, 3) {
+				pool = append(pool, discClasses["near-surrogate"]...)
+			}
+		case 3:
+			pool = append([]uint16{}, discClasses["near-surrogate"]...)
+		case 4:
+			pool = append([]uint16{}, discClasses["utf8-boundary"]...)
+		default:
+			pool = append([]uint16{}, discClasses["separator"]...)
+		}
+		k := 2 + r.intn(3)
+		for i := 0; i < 4*k && len(res) < k; i++ {
+			add(pool[r.intn(len(pool))])
+		}
+	}
+	for len(res) < n {
+		if small {
+			add(uint16(r.intn(12)))
+		} else {
+			add(r.id16())
+		}
+	}
+	// shuffle, so that the class members are not always the first (and so not always the configured members)
+	for i := len(res) - 1; i > 0; i-- {
+		j := r.intn(i + 1)
+		res[i], res[j] = res[j], res[i]
+	}
+	return res
+}
+
 // ---- message generator
 
 type discGen struct {
@@ -390,9 +486,55 @@ func (g *discGen) otherMember() uint16 {
 	return g.sc.Members[0]
 }
 
+// the target with ONE element replaced by another identifier of the same encoding class (a configured member outside
+// the target, an outsider, or a fresh value): same size, differs from the target in exactly that identifier
+func (g *discGen) twinView() []uint16 {
+	t := u16s(g.target)
+	if len(t) == 0 {
+		return t
+	}
+	in := map[uint16]bool{}
+	for _, x := range t {
+		in[x] = true
+	}
+	// prefer replacing an element of a non-trivial class
+	idx := g.r.intn(len(t))
+	for i := 0; i < 2*len(t); i++ {
+		j := g.r.intn(len(t))
+		if discClassOf(t[j]) != "other" && (t[j] != g.sc.Self || g.r.chance(1, 4)) {
+			idx = j
+			break
+		}
+	}
+	x := t[idx]
+	var cand []uint16
+	for _, y := range append(append([]uint16{}, g.sc.Members...), g.outsider...) {
+		cx, cy := discClassOf(x), discClassOf(y)
+		same := cx == cy || (cx == "surrogate" && cy == "replacement") || (cx == "replacement" && cy == "surrogate")
+		if !in[y] && same && cx != "other" {
+			cand = append(cand, y)
+		}
+	}
+	y := discTwinOf(g.r, x)
+	if len(cand) > 0 && g.r.chance(2, 3) {
+		y = cand[g.r.intn(len(cand))]
+	}
+	for i := 0; i < 8 && in[y]; i++ {
+		y = discTwinOf(g.r, x)
+	}
+	if in[y] {
+		y = x ^ 0x4000
+	}
+	t[idx] = y
+	return sortedU16(t)
+}
+
 // a list that is not the target
 func (g *discGen) lyingView(from uint16) []uint16 {
 	t := u16s(g.target)
+	if g.r.chance(1, 3) {
+		return g.twinView()
+	}
 	switch g.r.intn(9) {
 	case 0: // same size, one element replaced
 		if len(t) > 0 {
@@ -533,7 +675,7 @@ func (g *discGen) gen() discMsg {
 
 func discSetup(r *prng, id int, mode string) (*jDiscScen, *discGen, []byte, []byte) {
 	n := 2 + r.intn(5)
-	ids := r.distinctIDs(n+2, r.chance(1, 4))
+	ids := discIDs(r, n+2, r.chance(1, 5))
 	members := append([]uint16{}, ids[:n]...)
 	outsider := ids[n:]
 	self := members[r.intn(n)]
@@ -660,6 +802,23 @@ func runDiscStep(r *prng, id int) *jDiscScen {
 	sc.Ops = append(sc.Ops, jDiscOp{Op: "pass2", IV: iv2})
 	iv := u16s(vt.IntersectedView())
 	sc.Ops = append(sc.Ops, jDiscOp{Op: "pass", IV: iv})
+	// twin round: everybody agrees on the target, except one peer whose list differs from it in ONE identifier of the
+	// same encoding class; then that peer comes round
+	if ps := g.peers(); len(ps) > 0 {
+		p := ps[r.intn(len(ps))]
+		for _, v := range [][]uint16{g.twinView(), g.target} {
+			m := discMsg{"announce-twin", p, discEncode(byte(1+r.intn(2)), discTag(topic, p), v)}
+			op := jDiscOp{Op: "handle", Kind: m.kind, From: p, Data: hex.EncodeToString(m.data)}
+			if !f.handle(&op, p, m.data) {
+				sc.Ops = append(sc.Ops, op)
+				return sc
+			}
+			f.snapshot(&op)
+			sc.Ops = append(sc.Ops, op)
+			iv := u16s(vt.IntersectedView())
+			sc.Ops = append(sc.Ops, jDiscOp{Op: "pass", IV: iv})
+		}
+	}
 	return sc
 }
 
@@ -732,10 +891,14 @@ func runDiscSync(r *prng, id int) *jDiscScen {
 			j := r.intn(i + 1)
 			order[i], order[j] = order[j], order[i]
 		}
-		for _, p := range order {
+		for i, p := range order {
 			t := byte(1)
 			if r.chance(1, 3) {
 				t = 2 // a peer that is already in its second loop: its query carries the list
+			}
+			if i == len(order)-1 && r.chance(1, 2) {
+				// the last peer first announces a list that differs from the target in one same-class identifier
+				script = append(script, discMsg{"announce-twin", p, discEncode(1, discTag(topic, p), g.twinView())})
 			}
 			script = append(script, discMsg{"announce-target", p, discEncode(t, discTag(topic, p), g.target)})
 			if noise && r.chance(1, 2) {
@@ -889,5 +1052,52 @@ func runDiscWitness(id int) *jDiscScen {
 	}
 	iv = u16s(vt.IntersectedView())
 	sc.Ops = append(sc.Ops, jDiscOp{Op: "pass", IV: iv})
+	return sc
+}
+
+// Two lists that differ only in identifiers of one encoding class, as a fixed step-mode scenario: member 1 of
+// {1, 2, 0xD800, 0xD801}, expected 3, has heard 2 and 0xD800; 2 (which has heard 0xD801 instead) announces
+// [1 2 0xD801].  intersectedView must not take that for the own view [1 2 0xD800]; nor may a response or query
+// carrying the other list be waiting as if it matched (drained and compared).
+func runDiscTwinWitness(id int) *jDiscScen {
+	topic := []byte("C07 twin identifiers")
+	other := []byte("another topic")
+	sc := &jDiscScen{ID: id, Mode: "step", Plan: "twin-witness", Self: 1, Members: []uint16{1, 2, 0xD800, 0xD801}, Expected: 3}
+	for t, tp := range [][]byte{topic, other} {
+		for _, x := range []uint16{1, 2, 0xD800, 0xD801, 0xFFFD} {
+			sc.Tags = append(sc.Tags, jTag{T: t, ID: x, Tag: hex.EncodeToString(discTag(tp, x))})
+		}
+	}
+	f := newDiscFixture(sc, topic, other)
+	vt, err := f.m.VerifRegister(topic)
+	if err != nil {
+		panic(err)
+	}
+	f.vt = vt
+	steps := []struct {
+		kind string
+		t    byte
+		from uint16
+		v    []uint16
+	}{
+		{"announce-target", 1, 0xD800, []uint16{1, 2, 0xD800}},
+		{"announce-twin", 1, 2, []uint16{1, 2, 0xD801}},
+		{"announce-twin", 2, 2, []uint16{1, 2, 0xFFFD}},
+		{"announce-target", 1, 2, []uint16{1, 2, 0xD800}},
+	}
+	for _, st := range steps {
+		data := discEncode(st.t, discTag(topic, st.from), st.v)
+		op := jDiscOp{Op: "handle", Kind: st.kind, From: st.from, Data: hex.EncodeToString(data)}
+		ok := f.handle(&op, st.from, data)
+		if ok {
+			f.snapshot(&op)
+		}
+		sc.Ops = append(sc.Ops, op)
+		if !ok {
+			return sc
+		}
+		iv := u16s(vt.IntersectedView())
+		sc.Ops = append(sc.Ops, jDiscOp{Op: "pass", IV: iv})
+	}
 	return sc
 }
